@@ -2300,13 +2300,15 @@ void copy_api_from_app(
     scs_ptr->static_config.hme_level0_total_search_area_width = ((EbSvtAv1EncConfiguration*)config_struct)->hme_level0_total_search_area_width;
     scs_ptr->static_config.hme_level0_total_search_area_height = ((EbSvtAv1EncConfiguration*)config_struct)->hme_level0_total_search_area_height;
     scs_ptr->static_config.ext_block_flag = ((EbSvtAv1EncConfiguration*)config_struct)->ext_block_flag;
-    for (hme_region_index = 0; hme_region_index < scs_ptr->static_config.number_hme_search_region_in_width; ++hme_region_index) {
+    for (hme_region_index = 0; hme_region_index < scs_ptr->static_config.number_hme_search_region_in_width &&
+         hme_region_index < EB_HME_SEARCH_AREA_COLUMN_MAX_COUNT; ++hme_region_index) {
         scs_ptr->static_config.hme_level0_search_area_in_width_array[hme_region_index] = ((EbSvtAv1EncConfiguration*)config_struct)->hme_level0_search_area_in_width_array[hme_region_index];
         scs_ptr->static_config.hme_level1_search_area_in_width_array[hme_region_index] = ((EbSvtAv1EncConfiguration*)config_struct)->hme_level1_search_area_in_width_array[hme_region_index];
         scs_ptr->static_config.hme_level2_search_area_in_width_array[hme_region_index] = ((EbSvtAv1EncConfiguration*)config_struct)->hme_level2_search_area_in_width_array[hme_region_index];
     }
 
-    for (hme_region_index = 0; hme_region_index < scs_ptr->static_config.number_hme_search_region_in_height; ++hme_region_index) {
+    for (hme_region_index = 0; hme_region_index < scs_ptr->static_config.number_hme_search_region_in_height &&
+         hme_region_index < EB_HME_SEARCH_AREA_ROW_MAX_COUNT; ++hme_region_index) {
         scs_ptr->static_config.hme_level0_search_area_in_height_array[hme_region_index] = ((EbSvtAv1EncConfiguration*)config_struct)->hme_level0_search_area_in_height_array[hme_region_index];
         scs_ptr->static_config.hme_level1_search_area_in_height_array[hme_region_index] = ((EbSvtAv1EncConfiguration*)config_struct)->hme_level1_search_area_in_height_array[hme_region_index];
         scs_ptr->static_config.hme_level2_search_area_in_height_array[hme_region_index] = ((EbSvtAv1EncConfiguration*)config_struct)->hme_level2_search_area_in_height_array[hme_region_index];
@@ -2481,7 +2483,8 @@ static int verify_hme_dimension(unsigned int index, unsigned int HmeLevel0Search
     uint32_t        i;
     uint32_t        total_search_width = 0;
 
-    for (i = 0; i < number_hme_search_region_in_width; i++)
+    // the count is validated by the caller; never read past the region arrays
+    for (i = 0; i < number_hme_search_region_in_width && i < EB_HME_SEARCH_AREA_ROW_MAX_COUNT; i++)
         total_search_width += number_hme_search_region_in_width_array[i];
     if ((total_search_width) != (HmeLevel0SearchAreaInWidth)) {
         SVT_LOG("Error Instance %u: Summed values of HME area does not equal the total area. \n", index);
@@ -2497,7 +2500,8 @@ static int verify_hme_dimension_l1_l2(unsigned int index, uint32_t number_hme_se
     uint32_t        i;
     uint32_t        total_search_width = 0;
 
-    for (i = 0; i < number_hme_search_region_in_width; i++)
+    // the count is validated by the caller; never read past the region arrays
+    for (i = 0; i < number_hme_search_region_in_width && i < EB_HME_SEARCH_AREA_ROW_MAX_COUNT; i++)
         total_search_width += number_hme_search_region_in_width_array[i];
     if ((total_search_width > 480) || (total_search_width == 0)) {
         SVT_LOG("Error Instance %u: Invalid HME Total Search Area. Must be [1 - 480].\n", index);
